@@ -61,9 +61,10 @@ def _case(i):
             if diff is not None:
                 res['items'].append(('v', 'T%s:%s' % (mode, res['key']),
                                      'trace diverges from the language definition', dict(base, divergence=diff)))
+                return res      # one witness per case is enough; a diverging run may not terminate
         obs = P.run_interp(C.HYEONG, path, 0, sb)
         if obs.kind == 'cpu':
-            obs = P.run_interp(C.HYEONG, path, 0, sb, cpu=60)
+            obs = P.run_interp(C.HYEONG, path, 0, sb, cpu=30)
         d = P.compare_to_ref(obs, ro, re_, rend, lenient_encerr=False)
         if d is not None:
             if d.startswith('INCONCLUSIVE'):
@@ -90,7 +91,8 @@ def main(tier, seed):
     n = 1500 if tier == 'quick' else 40000
     rundir = C.mktmp(PID)
     _RUN.update(tier=tier, seed=seed, dir=rundir)
-    results = C.pmap(_case, list(range(n)), chunksize=8)
+    results = C.pmap(_case, list(range(n)), chunksize=4, stop_after_bad=60,
+                     is_bad=lambda r: any(it[0] == 'v' for it in r['items']))
     hist, srcs, featc, rejects = {}, {}, {}, {}
     evaluated = 0
     nontrivial = set()
